@@ -110,6 +110,8 @@ def gen_cases(rng: random.Random, reps: int):
                 c["rff"] = rng.choice([None, None, True, False])
             if c["style"] != "block" and rng.random() < 0.15:
                 c["forced"] = True  # forced support on a terminal that does support the style
+            elif c["style"] != "block" and rng.random() < 0.12:
+                c["subfirst"] = True  # detection first triggered through a user subclass
             plain = not c["args"] and c["alpha"] == 40 / 255 and not c["method"]
             if "blend" in c["args"]:
                 c["via"] = "renderer"
